@@ -19,6 +19,7 @@ mod model;
 mod props;
 mod tol;
 mod xform;
+mod xmlcheck;
 
 use engine::{replay_cmd, run_property, Outcome, Prop, Tier};
 use std::path::Path;
@@ -56,6 +57,7 @@ registry! {
     "C13" => props::c13::C13,
     "C14" => props::c14::C14,
     "C15" => props::c15::C15,
+    "C17" => props::c17::C17,
     "C19" => props::c19::C19,
 }
 
